@@ -31,7 +31,7 @@ RULE = ("pygen profile 'binding'; query points = NAME tokens of all project modu
         "binding, #files changed bucket, outcome)")
 ASSUMPTIONS = ["programs are in fragment F (DESIGN.md 3.1): receivers statically determined, no member overriding "
                "across a hierarchy except __init__", "fresh names are absent from the project, builtins and keywords"]
-BUDGET = {"quick": (250, 200), "thorough": (30000, 480)}
+BUDGET = {"quick": (250, 240), "thorough": (380, 900)}
 EXHAUSTIVE = {}
 CASE_TIMEOUT = 600
 REQUIRE = {"performed_and_run": 400, "performed_core": 200, "alignment_checked": 400, "lexical_alpha_checked": 200}
